@@ -211,6 +211,28 @@ func (n *c11NestedU) UnmarshalJSON(b []byte) error {
 	return nil
 }
 
+// c11CtxU is a context-aware unmarshaler that records what it finds in the context it is handed.
+type c11CtxKey struct{}
+
+type c11CtxU struct {
+	Seen string
+	Err  string
+	Raw  string
+}
+
+func (u *c11CtxU) UnmarshalJSON(ctx context.Context, b []byte) error {
+	u.Raw = string(b)
+	if ctx == nil {
+		u.Seen = "<nil context>"
+		return nil
+	}
+	u.Seen = fmt.Sprint(ctx.Value(c11CtxKey{}))
+	if err := ctx.Err(); err != nil {
+		u.Err = err.Error()
+	}
+	return nil
+}
+
 // c11Unm has the plain (context-free) UnmarshalJSON.
 type c11Unm struct{ got string }
 
@@ -546,6 +568,57 @@ func c11Pool(seed int64, idx int) []c11Call {
 			var v nestedDst
 			err := gojson.NewDecoder(strings.NewReader(d)).Decode(&v)
 			return fmt.Sprintf("%+v|%s", v, errClassStr(err))
+		})
+	}
+	// a context-aware unmarshaler: what it sees must be the context of the call it runs in
+	// (Background for the context-free entry points), never the context of an earlier call
+	type ctxDst struct {
+		A int
+		U c11CtxU
+		L []c11CtxU
+		P *c11CtxU
+	}
+	ctxDoc := []byte(`{"A":1,"U":{"k":1},"L":[1,"two"],"P":[3]}`)
+	for i := 0; i < 3; i++ {
+		i := i
+		add(fmt.Sprintf("UnmarshalContext(value,cancelled=%v):ctx-unmarshaler", i == 1), false, func(h *c11Handles) string {
+			ctx := context.WithValue(context.Background(), c11CtxKey{}, fmt.Sprint("request-", i))
+			if i == 1 {
+				var cancel context.CancelFunc
+				ctx, cancel = context.WithCancel(ctx)
+				cancel()
+			}
+			var v ctxDst
+			err := gojson.UnmarshalContext(ctx, ctxDoc, &v)
+			return fmt.Sprintf("A=%d U=%+v L=%+v P=%+v|%s", v.A, v.U, v.L, v.P, errClassStr(err))
+		})
+		add(fmt.Sprintf("Decoder.DecodeContext(value):ctx-unmarshaler:%d", i), false, func(h *c11Handles) string {
+			ctx := context.WithValue(context.Background(), c11CtxKey{}, fmt.Sprint("stream-", i))
+			var v ctxDst
+			err := gojson.NewDecoder(bytes.NewReader(ctxDoc)).DecodeContext(ctx, &v)
+			return fmt.Sprintf("A=%d U=%+v L=%+v P=%+v|%s", v.A, v.U, v.L, v.P, errClassStr(err))
+		})
+	}
+	for _, e := range []string{"Unmarshal", "UnmarshalNoEscape", "UnmarshalWithOption", "Decoder.Decode", "Path.Unmarshal"} {
+		e := e
+		add(e+":ctx-unmarshaler", false, func(h *c11Handles) string {
+			var v ctxDst
+			var err error
+			switch e {
+			case "Unmarshal":
+				err = gojson.Unmarshal(ctxDoc, &v)
+			case "UnmarshalNoEscape":
+				err = gojson.UnmarshalNoEscape(ctxDoc, &v)
+			case "UnmarshalWithOption":
+				err = gojson.UnmarshalWithOption(ctxDoc, &v, gojson.DecodeFieldPriorityFirstWin())
+			case "Decoder.Decode":
+				err = gojson.NewDecoder(bytes.NewReader(ctxDoc)).Decode(&v)
+			default:
+				if p := h.path("$"); p != nil {
+					err = p.Unmarshal(ctxDoc, &v)
+				}
+			}
+			return fmt.Sprintf("A=%d U=%+v L=%+v P=%+v|%s", v.A, v.U, v.L, v.P, errClassStr(err))
 		})
 	}
 	// compiled paths reused along the history, failing documents included
